@@ -62,7 +62,13 @@ def check(ck):
               'into), so a process that hands back the same object every '
               'time does not see earlier updates accumulate in it and get '
               'applied again',
-              c06.r06_7)
+              c06.r06_7, c08.r08_13)
+    ck.shared('R01.17', 'an update reaches the variable the process read: '
+              'the writer (inverse_topology) handles every wiring case the '
+              'readers handle (sibling case tables agree), otherwise the '
+              'part of an update addressed through the unhandled case is '
+              'never applied',
+              c06.r06_1)
 
 
 # ------------------------------------------------------------------ R01.1
@@ -910,6 +916,17 @@ def r01_7(ck, rf):
                 elif isinstance(src, ast.Name) and src.id in quiet_lists:
                     why = ('the list %s also receives paths that did not '
                            'get an EmptyDefer' % src.id)
+            if not ok and fi is not f:
+                from ..restructure import pinned as _pinned
+                if (fi.module + ':' + fi.qual) not in _pinned():
+                    # a new helper (a generator, ...) that could not be
+                    # folded into run_for: whether this clear is the
+                    # clearing half of a take cannot be seen from here
+                    ck.undecided('R01.7', fi, stmt,
+                                 'a front slot is emptied in the new helper '
+                                 '%s, outside the scheduler loop the rule '
+                                 'reads' % fi.qual, stmt)
+                    continue
             ck.require(ok, 'R01.7', fi, stmt,
                        'slot emptied only for entries that this iteration '
                        'recorded as quiet',
